@@ -409,6 +409,23 @@ func (sp *Stepper) step(c Cmd, tag string) *Obs {
 	plPre := parseLog(rawPre, sp.IDs, true)
 	plPost := parseLog(rawPost, sp.IDs, true) // learns new ids in log order
 	post := sp.St.observe(sp.IDs)
+	if n := c.name(); n == "new_task" || n == "new_epic" || n == "plan" {
+		// the fresh ids are whatever the command actually created, in log order
+		had := map[string]bool{}
+		for _, ev := range plPre.events {
+			if t := ev["type"]; t == "new_task" || t == "new_epic" {
+				had[fmt.Sprint(ev["id"])] = true
+			}
+		}
+		fresh := []string{}
+		for _, ev := range plPost.events {
+			if t := ev["type"]; (t == "new_task" || t == "new_epic") && !had[fmt.Sprint(ev["id"])] {
+				fresh = append(fresh, fmt.Sprint(ev["id"]))
+				had[fmt.Sprint(ev["id"])] = true
+			}
+		}
+		c["newids"] = fresh
+	}
 
 	rk := newRanker()
 	rk.addView(pre.View)
